@@ -3,10 +3,12 @@ package lifecycle
 import (
 	"errors"
 	"fmt"
+	"os"
 	"reflect"
 	"sort"
 	"strings"
 	"testing"
+	"verif/harness/oracle"
 
 	"pgregory.net/rapid"
 
@@ -72,7 +74,12 @@ func checkUpd(c UpdCase) pbt.Verdict {
 	if err != nil {
 		return fail("load of P failed: %v\n%s", err, sc.YAML(c.P, false, 0))
 	}
-	defer e.Finish()
+	finished := false
+	defer func() {
+		if !finished {
+			e.Finish()
+		}
+	}()
 	for i := 0; i < c.Anchored; i++ {
 		v.Excluded = append(v.Excluded, "C20-restart-last-process")
 	}
@@ -98,7 +105,15 @@ func checkUpd(c UpdCase) pbt.Verdict {
 		}
 		call := e.H.Calls[len(e.H.Calls)-1]
 		if call.SeqRet < 0 {
-			return fail("update %d: UpdateProject did not return", ui)
+			var tr []string
+			from := seq0
+			if os.Getenv("VERIF_DEBUG_TRACE") != "" {
+				from = 0
+			}
+			for _, ev := range e.W.Events()[from:] {
+				tr = append(tr, ev.String())
+			}
+			return fail("update %d: UpdateProject did not return; parked: %s\nevents since the request: %s", ui, parkedNow(), strings.Join(tr, "; "))
 		}
 		if call.Err != "" {
 			return fail("update %d: UpdateProject failed: %s", ui, call.Err)
@@ -184,7 +199,13 @@ func checkUpd(c UpdCase) pbt.Verdict {
 				if old != nil && old.Alive() {
 					return fail("update %d: removed process %s is still alive (inst %d)", ui, name, old.Inst)
 				}
-				if len(launches[name]) > 0 {
+				// an instance that was still pending may launch during the update (its dependency is
+				// removed first and thereby "completes") before its own turn comes; nothing of a
+				// removed process is alive afterwards, and one that was running is not launched again
+				if len(liveAfter[name]) > 0 {
+					return fail("update %d: removed process %s has a live command after the update (inst %d)", ui, name, liveAfter[name][0].Inst)
+				}
+				if old != nil && len(launches[name]) > 0 {
 					return fail("update %d: removed process %s was launched again", ui, name)
 				}
 			case want[name] == "updated":
@@ -192,8 +213,11 @@ func checkUpd(c UpdCase) pbt.Verdict {
 					return fail("update %d: changed process %s kept its old instance %d alive\nold: %s\nnew: %s", ui, name, old.Inst, launchRelevant(op), launchRelevant(np))
 				}
 				if !np.Disabled && len(np.Deps) == 0 {
-					if len(launches[name]) != 1 {
-						return fail("update %d: changed process %s was launched %d times", ui, name, len(launches[name]))
+					// an old instance that was still pending may launch during the update (e.g. its
+					// dependency is removed first and thereby "completes") before it is terminated;
+					// one that was running is replaced by exactly one launch
+					if n := len(launches[name]); n < 1 || (old != nil && n != 1) {
+						return fail("update %d: changed process %s (running before: %v) was launched %d times", ui, name, old != nil, n)
 					}
 					if msg := launchedWith(liveAfter[name], np); msg != "" {
 						return fail("update %d: changed process %s: %s", ui, name, msg)
@@ -240,6 +264,33 @@ func checkUpd(c UpdCase) pbt.Verdict {
 			v.Labels = append(v.Labels, "idempotence")
 		}
 		cur = next
+	}
+	// the end game lets everything exit: whatever is launched from now on (dependents that were
+	// pending, policy restarts) must belong to the last configuration and be launched as it says
+	seqEnd := e.W.NumEvents()
+	finished = true
+	hist := e.Finish()
+	if hist.Busy != "" {
+		return v
+	}
+	final := byName(cur)
+	byInst := map[int]*world.FakeCmd{}
+	for _, cmd := range e.W.AllCmds() {
+		byInst[cmd.Inst] = cmd
+	}
+	for _, ev := range hist.Events {
+		if ev.Seq < seqEnd || ev.Kind != world.EvLaunch {
+			continue
+		}
+		sp, ok := final[ev.Proc]
+		if !ok {
+			return fail("after the last update, %s was launched (seq %d) although the last configuration does not contain it", ev.Proc, ev.Seq)
+		}
+		if cmd := byInst[ev.Inst]; cmd != nil {
+			if msg := launchedWith([]*world.FakeCmd{cmd}, sp); msg != "" {
+				return fail("after the last update, %s (seq %d): %s", ev.Proc, ev.Seq, msg)
+			}
+		}
 	}
 	return v
 }
@@ -295,7 +346,9 @@ func genSpec(t *rapid.T, name string, earlier []string) sc.ProcSpec {
 		p.ReadyProbe = true
 	}
 	if len(earlier) > 0 && pbt.Pct(t, 40) {
-		p.Deps = []sc.Dep{{On: pbt.Pick(t, earlier), Cond: "process_started"}}
+		// process_completed on a long-running dependency keeps the dependent pending: an update
+		// may then change or remove an instance that has not launched anything yet
+		p.Deps = []sc.Dep{{On: pbt.Pick(t, earlier), Cond: pbt.Pick(t, []string{"process_started", "process_started", "process_completed"})}}
 	}
 	return p
 }
@@ -458,4 +511,14 @@ func genUpd(t *rapid.T) UpdCase {
 
 func TestC14(t *testing.T) {
 	pbt.Run(t, pbt.Spec[UpdCase]{Prop: "C14", Test: "TestC14", Engine: "lifecycle", Gen: genUpd, Check: checkUpd})
+}
+
+// parkedNow summarises where the goroutines of the system under test are parked right now.
+func parkedNow() string {
+	var fr []string
+	for _, g := range world.SUTGoroutines() {
+		fr = append(fr, oracle.TopFrames(g.Body))
+	}
+	sort.Strings(fr)
+	return strings.Join(fr, " | ")
 }
